@@ -100,3 +100,14 @@ package css_ast
 //@   arith int
 //@   prop C12
 //@   ensures layer-blocks-are-never-duplicates: !result
+
+// C08: same rule as linker.maybeCorrectObviousTypo - the CSS property-name typo detector is built from the keys of the
+// KnownDeclarations map, which must be sorted first ("overflow-z" is one deletion away from both overflow-x and
+// overflow-y; which one is suggested must not depend on the process).
+//@ guarded typo-detector-is-built-from-a-sorted-list C08: func=MaybeCorrectDeclarationTypo ; in=css_ast ; site=call MakeTypoDetector ; scenario=css_typo_suggestion_order ; preceded-by-call=Strings
+
+// C12 (rules are merged only if they select the same elements): two names from different files are the same name only
+// when they are the same symbol after linking, or when BOTH are global names with the same spelling. A local
+// (CSS-module) name is renamed per file, so its spelling says nothing: the spelling may be compared only after both
+// symbols' kinds have been tested.
+//@ guarded spelling-compared-only-for-two-global-names C12: func=(*CrossFileEqualityCheck).RefsAreEquivalent ; in=css_ast ; site=binop *.OriginalName==*.OriginalName ; scenario=global_rule_deduped_against_local_name ; require=true:call Get(*FollowSymbols(*,a)).Kind==* && true:call Get(*FollowSymbols(*,b)).Kind==*
